@@ -49,7 +49,7 @@ def classify(src):
     return tags
 
 
-def one_path(E, ctx, prog, desc_base):
+def one_path(E, ctx, prog, desc_base, raising=False):
     """compare original vs regenerated on the current path; E None = concrete replay"""
     fails = []
     pl = prog.pipeline()
@@ -61,11 +61,12 @@ def one_path(E, ctx, prog, desc_base):
     fn = pl[1]
     if E is not None:
         args, argvars = s2.sym_args(E)
-        env1, env2 = s2.Env(E), s2.Env(E)
+        env1, env2 = s2.Env(E, raising=raising), s2.Env(E, raising=raising)
     else:
         args = s2.concrete_args(desc_base["args"])
         argvars = []
-        env1, env2 = s2.Env(None, concrete=desc_base["ext"]), s2.Env(None, concrete=desc_base["ext"])
+        raising = any(k.startswith("raise:") for k in desc_base["ext"])
+        env1, env2 = s2.Env(None, concrete=desc_base["ext"], raising=raising), s2.Env(None, concrete=desc_base["ext"], raising=raising)
     o1 = prog.run(prog.orig_fn, args, env1)
     if o1[0] == "unwind":
         return fails, "unwind"
@@ -89,7 +90,7 @@ def one_path(E, ctx, prog, desc_base):
     return fails, "compared"
 
 
-def harness_for(gen_factory):
+def harness_for(gen_factory, raising=False):
     def harness(E, ctx, aux):
         ch = s2.Chooser(E, getattr(ctx, "cube", ()))
         g = gen_factory(ch)
@@ -99,7 +100,7 @@ def harness_for(gen_factory):
         if prog.orig_error is not None:
             ctx.feature("generator-produced-invalid-python")
             return
-        fails, status = one_path(E, ctx, prog, None)
+        fails, status = one_path(E, ctx, prog, None, raising)
         ctx.evaluations += 1
         key = ("seen", src)
         if not hasattr(ctx, "_seen"):
@@ -123,11 +124,15 @@ def harness_for(gen_factory):
             else:
                 desc.update({"args": None, "ext": {}})
             ctx.fail(f["kind"], f["signature"], desc, f["detail"])
+    harness.factory = gen_factory
+    harness.raising = raising
     return harness
 
 
-def _job(name, factory, depth, bounds, budget, required=True):
-    return Job(name=name, space=lambda: (None, [], None), harness=harness_for(factory), bounds=bounds, budget_s=budget,
+def _job(name, factory, depth, bounds, budget, required=True, raising=False):
+    if raising:
+        bounds = dict(bounds, external_calls="each dynamic external call may raise (one z3 boolean per call)")
+    return Job(name=name, space=lambda: (None, [], None), harness=harness_for(factory, raising), bounds=bounds, budget_s=budget,
                required=required, cubes_fn=lambda: s2.enum_prefixes(lambda ch: factory(ch).program(), depth), path_timeout_s=20.0)
 
 
@@ -136,8 +141,13 @@ def jobs(tier):
     passjob = _job("S2-ctl-c2-pass-bodies", lambda ch: s2.CtlGen(ch, 2, 2, 1, pass_bodies=("all" if tier == "quick" else True)), 3,
                    {"space": "S2-ctl", "compounds<=": 2, "terminators<=": 1, "bodies": "pass only (quick) / marker or pass (thorough)"}, 900)
     forjob = _job("S2-for-target", lambda ch: s2.ForGen(ch), 2, {"space": "S2-for", "programs": "pre-assignment x iterable x body x else x use of the target after the loop"}, 600)
+    raisejobs = [
+        _job("S2-expr-d1-raising-operands", lambda ch: s2.ExprGen(ch, 1, rich_leaves=True), 2,
+             {"space": "S2-expr", "expression depth<=": 1, "positions": s2.ExprGen.POSITIONS}, 600, raising=True),
+        _job("S2-ctl-c1-raising-tests", lambda ch: s2.CtlGen(ch, 1, 2, 1), 2, {"space": "S2-ctl", "compounds<=": 1}, 600, raising=True),
+    ]
     if tier == "quick":
-        return [forjob, loopjob, passjob,
+        return raisejobs + [forjob, loopjob, passjob,
             _job("S2-ctl-c2-d2-t1", lambda ch: s2.CtlGen(ch, 2, 2, 1), 3,
                  {"space": "S2-ctl", "compounds<=": 2, "depth<=": 2, "terminators<=": 1, "tests": "external calls"}, 900),
             _job("S2-ctl-c1-argtests", lambda ch: s2.CtlGen(ch, 1, 2, 2, arg_tests=True), 2,
@@ -147,7 +157,7 @@ def jobs(tier):
             _job("S2-expr-d2-quick-inner", lambda ch: s2.ExprGen(ch, 2), 3,
                  {"space": "S2-expr", "expression depth<=": 2, "inner ops": s2.ExprGen.INNER_QUICK, "positions": s2.ExprGen.POSITIONS}, 900),
         ]
-    return [forjob, loopjob, passjob,
+    return raisejobs + [forjob, loopjob, passjob,
         _job("S2-ctl-c2-d3-t2", lambda ch: s2.CtlGen(ch, 2, 3, 2), 3,
              {"space": "S2-ctl", "compounds<=": 2, "depth<=": 3, "terminators<=": 2, "tests": "external calls"}, 1800),
         _job("S2-ctl-c2-argtests", lambda ch: s2.CtlGen(ch, 2, 2, 1, arg_tests=True), 3,
